@@ -19,9 +19,9 @@ P = {
  'C04': ('other', 'sibling agreement of entry points + pipeline order + conservation path rules',
          'Decides that split and parse drive the same single splitter pass, that pieces are non-empty and that strip() agrees with the lexer\'s whitespace class. ',
          'Not decided: re-split idempotence (needs re-lexing of output).', '3 C04'),
- 'C05': ('other', 'guard-dominance rules on the splitter + region-rule table checks',
-         'Decides the mechanism clauses: split trigger shape, value independence of non-structural tokens, positive level only under CREATE/parenthesis, region rules typed outside Punctuation/Keyword.',
-         'Not decided: the statement count k as a number for arbitrary scripts.', '3 C05'),
+ 'C05': ('other', 'guard-dominance rules on the splitter + region-rule automata + AST interpretation of StatementSplitter.process on token streams',
+         'Decides the mechanism clauses: split trigger shape, value independence of non-structural tokens, positive level only under CREATE/parenthesis, region rules typed outside Punctuation/Keyword; plain scripts (lexed with the table model) through the interpreted splitter come back as the written statements.',
+         'Bounded: eight plain scripts and the parenthesis skeletons for the interpretation. Not decided: the statement count k for arbitrary scripts.', '3 C05'),
  'C06': ('other', 'guarded-effect discipline on every mutation site of the layout filters; tree-API contract; statement-edge and operator-spacing table rules',
          'Every tree effect of a layout filter inserts whitespace, deletes a token proved whitespace by a dominating guard, or blanks a whitespace value; insert_before/insert_after insert exactly the given token; layout options enable only layout filters in a fixed order; serializer/lexer region tables compared; removing a statement edge or spacing an operator cannot change how the text lexes (table evaluation).',
          'Not decided: statement-count equality of arbitrary output; the open findings (serializer regions, GO boundary, "# ") are listed in known_findings.json.', '3 C06'),
@@ -37,9 +37,9 @@ P = {
  'C10': ('other', 'filter order and option implication; clause-keyword table vs lexer output; AST interpretation of StripWhitespaceFilter.process on 282 small token trees, of strip_whitespace + ReindentFilter.process on 26 statement trees and of _stripws_default on 62 patterns; handler/table agreement; fresh-object rule',
          'strip_whitespace normal form decided on enumerated small trees by evaluating the filter source (no edge whitespace, no run of two, parentheses tight); reindent: every clause keyword in every spelling the lexer emits is selected by the split lookup, each group handler recognises every delimiter word of its class; operator spacing two-sided.',
          'Bounded: 26 statement trees for reindent, trees of up to 4 children per list for strip_whitespace. Not decided: reindent_aligned layout; the fixed-point clause.', '3 C10'),
- 'C11': ('other', 'normal-form agreement between matcher literals and lexer output (case, inner whitespace), vocabulary shadowing',
-         'Every comparison of keyword text against a constant goes through a normal form erasing case and inner whitespace; multi-word rules use \\s+; neighbour lookups skip whitespace by containment.',
-         'Not decided: equality of tree shapes under respelling as such.', '3 C11'),
+ 'C11': ('other', 'normal-form agreement between matcher literals and lexer output (case, inner whitespace), vocabulary shadowing; AST interpretation of the splitter and of the identifier accessors under five kinds of whitespace',
+         'Every comparison of keyword text against a constant goes through a normal form erasing case and inner whitespace; multi-word rules use \\s+; neighbour lookups skip whitespace by containment, type tests by containment (no equality / membership in a display); all ordered token pairs lex alike with five separators; statement boundaries of interpreted token streams and accessor results on interpreted Identifier trees do not depend on the kind of whitespace.',
+         'Not decided: equality of whole tree shapes under respelling for arbitrary statements.', '3 C11'),
  'C12': ('other', 'AST interpretation of the five accessors on enumerated Identifier trees; table agreement of name types; pass-order rule over the _group clients; lexer scan semantics',
          'get_real_name/get_parent_name/get_alias/get_name/has_alias interpreted on Identifier trees (name, qualifier.name, three quoting styles, alias with/without AS, blanks and comments between the parts) return the written parts; name-type sets of lexer and accessors agree; a name after a period is lexed as a name; no Identifier-building pass that runs before group_identifier/group_as takes a Parenthesis as operand.',
          'Bounded: trees of the property\'s reference forms, not arbitrary expressions; the placement of the reference in a statement is covered only through the pass-order and follower rules.', '3 C12'),
